@@ -29,6 +29,10 @@ use std::sync::{Arc, Mutex, RwLock};
 
 type NativeHnsw = HnswIndex<PersistentVectorStorage, PersistentGraphStorage>;
 
+// Reserved names under which the catalog keeps the roots of the HNSW B-trees.
+const HNSW_VEC_INDEX: &str = "__sys_hnsw_vec";
+const HNSW_GRAPH_INDEX: &str = "__sys_hnsw_graph";
+
 fn parse_hnsw_env_usize(name: &str, default_value: usize) -> usize {
     std::env::var(name)
         .ok()
@@ -85,8 +89,8 @@ impl GraphEngine {
 
         // Initialize HNSW Index (T203)
         // We use RESERVED names in IndexCatalog to store the roots for Vector and Graph BTrees.
-        let vec_def = index_catalog.get_or_create(&mut pager, "__sys_hnsw_vec")?;
-        let graph_def = index_catalog.get_or_create(&mut pager, "__sys_hnsw_graph")?;
+        let vec_def = index_catalog.get_or_create(&mut pager, HNSW_VEC_INDEX)?;
+        let graph_def = index_catalog.get_or_create(&mut pager, HNSW_GRAPH_INDEX)?;
 
         let v_store = PersistentVectorStorage::new(BTree::load(vec_def.root));
         let g_store = PersistentGraphStorage::new(BTree::load(graph_def.root));
@@ -304,9 +308,24 @@ impl GraphEngine {
 
     // T203: HNSW Public API
     pub fn insert_vector(&self, id: InternalNodeId, vector: Vec<f32>) -> Result<()> {
+        // Lock order as in commit/create_index: catalog before pager.
+        let mut catalog = self.index_catalog.lock().unwrap();
         let mut pager = self.pager.write().unwrap();
         let mut idx = self.vector_index.lock().unwrap();
-        idx.insert(&mut *pager, id, vector)
+        let inserted = idx.insert(&mut *pager, id, vector);
+
+        // A root split moves the root of a B-tree to a new page. Persist the current
+        // roots, otherwise reopening loads the trees from their initial root pages.
+        let (v_store, g_store) = idx.stores();
+        for (name, root) in [
+            (HNSW_VEC_INDEX, v_store.root()),
+            (HNSW_GRAPH_INDEX, g_store.root()),
+        ] {
+            if catalog.get(name).map(|def| def.root) != Some(root) {
+                catalog.update_root(&mut pager, name, root)?;
+            }
+        }
+        inserted
     }
 
     pub fn search_vector(&self, query: &[f32], k: usize) -> Result<Vec<(InternalNodeId, f32)>> {
